@@ -496,10 +496,15 @@ def _table(run, P):
                                         mentions(x_, what) for x_ in t_))
                                 both = mentions(st_t, ("attr", P1, "statements")) and \
                                     mentions(st_t, ("attr", P2, "statements"))
-                                other = not mentions(st_t, "disambiguate_and_fuse") and not any(
-                                    mentions(st_t, ("name", n_)) for n_ in (
-                                        "disambiguate_and_fuse",
-                                        "pymbolic.imperative.transform.disambiguate_and_fuse"))
+                                def calls_function(t_):
+                                    return isinstance(t_, tuple) and (
+                                        (len(t_) > 1 and t_[0] == "call" and isinstance(t_[1], tuple)
+                                         and t_[1][:1] == ("name",)
+                                         and t_[1][1].split(".")[-1][:1].islower()
+                                         and t_[1][1].split(".")[-1] not in (
+                                             "disambiguate_and_fuse", "list", "tuple", "sorted"))
+                                        or any(calls_function(x_) for x_ in t_))
+                                other = calls_function(st_t)
                                 if both and other:
                                     # both statement lists go into some other fusion (a fast
                                     # path for phases without clashing names, say): whether
